@@ -73,7 +73,7 @@ T = {
  'C13': dict(
   technique='traversal exhaustiveness over the check class hierarchy; fold/cycle-walker rules',
   text='Static analysis. (S) child-holding attributes are computed from the check classes (constructor-stored and evaluated in __call__); each validator walker must descend into every one of them. (N) walker recursion is an ANY fold; undefined test is non-membership in the rule store; the cycle walker marks before descending and copies the visited set per branch; check_rules aggregates and raises as documented; the validator fails for its four problem classes.',
-  note='Termination of evaluation when nothing is reported is decided only through its structural causes.',
+  note='Termination of evaluation when nothing is reported is decided only through its structural causes. Known finding F14: the validator infers a parse failure from the printed form `!`, which `(!)` shares.',
   ref='3 C13'),
  'C14': dict(
   technique='may-raise model vs enclosing-handler coverage over the evaluation region',
@@ -88,12 +88,12 @@ T = {
  'C16': dict(
   technique='expression-shape and sibling-agreement rules on the http/https check classes',
   text='Static analysis (necessary conditions). Both remote check classes decide by reply text stripped only of double quotes == \'True\'; no except body returns; URL is scheme + match % target passed first to requests.post; payload carries rule/target/credentials in the configured encoding; the caller\'s target is never written (blanking on a deepcopy); entry points map http/https to these classes.',
-  note='requests\' behaviour is trusted.',
+  note='requests\' behaviour (decoding of the reply body included) is trusted. Further rules from the hardening rounds (DESIGN 9): no handler around a nested evaluation catches what a failing remote check raises; __call__ as getfullargspec sees it keeps its fifth named parameter.',
   ref='3 C16'),
  'C17': dict(
   technique='string-shape / taint analysis of the sample generator',
   text='Static analysis. (S) the help-text sanitizer is shown to return only #-prefixed lines; (S) for every path of the YAML formatter under the sample entry point\'s constants, every line of the abstract output starts with # (or is empty), multi-line sources occur only through the sanitizer, single-line sources only on #-started lines; (N) the rule line shape and the JSON member shape.',
-  note='textwrap.wrap honouring its indents and single-line sources being free of line breaks are assumed.',
+  note='textwrap.wrap honouring its indents and single-line sources being free of line breaks are assumed. Since F16 the JSON member value must be a JSON scalar (a TAB in a check string); a namespace\'s rule defaults are walked once (C17.ONCE); generated files are opened truncating.',
   ref='3 C17'),
  'C18': dict(
   technique='quoted-hole provenance, pop-guard dominance and branch rules on the rewriting tools',
@@ -108,7 +108,7 @@ T = {
  'C20': dict(
   technique='publication-discipline (write-site) analysis of the shared rule stores',
   text='Static analysis. (S) every write to the shared stores Enforcer.rules / file_rules reachable from load_rules is enumerated and tested against the two safe disciplines (single rebind of a locally built object, or a common lock around writers and readers).',
-  note='Known finding F9: the stores are rebuilt in place without a lock; recorded per write site, any new write site or reader is a violation.',
+  note='Known finding F9: the stores are rebuilt in place without a lock; recorded per write site, any new write site or reader is a violation. Also: flags gating a store-writing step are not lowered by a load, every call loads first, the store class keeps no derived state (DESIGN 9).',
   ref='3 C20'),
 }
 
